@@ -186,7 +186,7 @@ Proof.
     destruct (match get_serialized_as_type uc a with Some s => parse_ty_str tstr s | None => parse_ty t end); cbn [bind]; try discriminate.
     intros H. apply mk_alias_name in H as (al & -> & Hn). cbn. auto.
   - unfold parse_const.
-    destruct (match ce_first_lit e with Some (CInt (Some z)) => Ok z | _ => Err EConstTypeInvalid end); cbn [bind]; try discriminate.
+    destruct (parse_const_expr e); cbn [bind]; try discriminate.
     destruct (match get_serialized_as_type uc a with Some s => parse_ty_str tstr s | None => parse_ty t end) as [rt| |]; cbn [bind]; try discriminate.
     destruct rt; try discriminate;
       (destruct (get_ident uc (Some i) a None) as [x| |] eqn:Ei; cbn [bind]; try discriminate;
